@@ -92,6 +92,7 @@ pub struct Renderer<'r> {
     /// one directive per line (true) or inline where the grammar allows
     pub per_line: bool,
     pub comments: bool,
+    pub comment_seps: bool,
 }
 
 fn render_piece(p: &Piece, formals: &[(String, Option<String>)]) -> String {
@@ -144,7 +145,9 @@ pub fn render_define(m: &MacroDef) -> String {
         s.push(' ');
         let mut first = true;
         for p in b {
-            if !first {
+            // `;` directly follows a string literal (K1 steering: no trivia after literals)
+            let glue = matches!(p, Piece::Tok(t) if t == ";");
+            if !first && !glue {
                 s.push(' ');
             }
             first = false;
@@ -158,9 +161,13 @@ pub fn render_define(m: &MacroDef) -> String {
 impl<'r> Renderer<'r> {
     pub fn new(r: &'r mut Rng) -> Renderer<'r> {
         let per_line = r.chance(1, 2);
-        Renderer { r, per_line, comments: true }
+        Renderer { r, per_line, comments: true, comment_seps: false }
     }
     fn sep(&mut self) -> &'static str {
+        if self.comment_seps && self.r.chance(1, 3) {
+            // a comment as the only separator
+            return *self.r.pick(&["/**/", "/* c */", "// c\n", "/* x */ ", " /* y */", "//\n", "/* `endif */"]);
+        }
         if self.per_line {
             *self.r.pick(&["\n", "\n", "\n\n", " \n", "\n  "])
         } else {
@@ -172,11 +179,15 @@ impl<'r> Renderer<'r> {
     }
 
     pub fn items(&mut self, items: &[Item], out: &mut String, lines: &mut Vec<u32>) {
-        for it in items {
+        for (ix, it) in items.iter().enumerate() {
             match it {
                 Item::Tok(t) => {
                     out.push_str(t);
-                    out.push_str(self.sep());
+                    // a directive may follow a token directly (the backtick delimits)
+                    let next_is_directive = matches!(items.get(ix + 1), Some(Item::Cond { .. }) | Some(Item::Undef(_)) | Some(Item::UndefAll) | Some(Item::Usage { .. }));
+                    if !(self.comment_seps && !self.per_line && next_is_directive && self.r.chance(1, 3)) {
+                        out.push_str(self.sep());
+                    }
                 }
                 Item::Str(s) => {
                     out.push('"');
@@ -283,11 +294,16 @@ impl<'r> Renderer<'r> {
 }
 
 pub fn render(p: &Prog, r: &mut Rng) -> Rendered {
+    render_opt(p, r, false)
+}
+
+pub fn render_opt(p: &Prog, r: &mut Rng, comment_seps: bool) -> Rendered {
     let mut rd = Rendered::default();
     for f in &p.files {
         let mut s = String::new();
         let mut lines = Vec::new();
         let mut rr = Renderer::new(r);
+        rr.comment_seps = comment_seps;
         rr.items(&f.items, &mut s, &mut lines);
         if !s.ends_with('\n') {
             s.push('\n');
